@@ -128,6 +128,7 @@ def unit_text(mutant=None):
                 g = f.replace("RecomputeOutputsDirtyCache::RecomputeOutputDirty(", "RecomputeOutputsDirtyCache::RecomputeOutputDirty_%s(" % val, 1)
                 g, k = re.subn(r'IF_FIRSTRUN\s*\(', 'IF_FIRSTRUN_%s (' % val.upper(), g)
                 g = re.sub(r'\bFIRSTRUN\b', val, g)          # the template parameter itself, where the body names it
+                g = re.sub(r'\bif\s+constexpr\s*\(', 'if (', g)      # with the parameter substituted the condition is a constant: `if constexpr (c)` is `if (c)`
                 inst.append(g)
             f = "\n\n".join(inst)
         parts.append(f)
